@@ -54,12 +54,12 @@ pub fn doc_html(body: &[N]) -> String {
 /// What the block grammar may use.
 #[derive(Clone, Copy)]
 pub struct Feat {
-    pub tables: bool, pub ids: bool, pub links: bool, pub pre: bool, pub imgs: bool, pub wide: bool, pub zero: bool, pub zero_only: bool,
+    pub tables: bool, pub ids: bool, pub links: bool, pub pre: bool, pub imgs: bool, pub wide: bool, pub zero: bool, pub zero_only: bool, pub vs16: bool,
     pub lists: bool, pub quotes: bool, pub heads: bool, pub dl: bool, pub inline: bool, pub strike: bool, pub br: bool, pub stray: bool,
     pub colspan: bool, pub nested_tables: bool, pub sup: bool, pub unique: bool, pub linky: bool, pub odd_href: bool, pub maxdepth: u32,
 }
 impl Feat {
-    pub fn all() -> Feat { Feat { tables: true, ids: false, links: true, pre: true, imgs: true, wide: true, zero: true, zero_only: true, lists: true, quotes: true,
+    pub fn all() -> Feat { Feat { tables: true, ids: false, links: true, pre: true, imgs: true, wide: true, zero: true, zero_only: true, vs16: false, lists: true, quotes: true,
         heads: true, dl: true, inline: true, strike: true, br: true, stray: false, colspan: true, nested_tables: true, sup: false, unique: true, linky: false, odd_href: false, maxdepth: 3 } }
     pub fn notables() -> Feat { Feat { tables: false, colspan: false, nested_tables: false, ..Feat::all() } }
 }
@@ -81,7 +81,7 @@ impl<'a> G<'a> {
         if self.f.wide && self.r.chance(1, 5) { let p = self.r.below(s.len() as u64 + 1) as usize; s.insert(p, *self.r.pick(&['一', '二', '語', '🎉'])); }
         if self.f.zero && self.r.chance(1, 8) { s.push('\u{301}'); }
         // an emoji presentation sequence: one column plus none by its characters, two columns as a string
-        if self.f.wide && self.f.zero && self.r.chance(1, 25) { let p = self.r.below(s.len() as u64 + 1) as usize; if s.is_char_boundary(p) { s.insert_str(p, *self.r.pick(&["\u{263a}\u{fe0f}", "\u{2764}\u{fe0f}", "\u{263a}\u{fe0f}\u{263a}\u{fe0f}"])); } }
+        if self.f.vs16 && self.r.chance(1, 25) { let p = self.r.below(s.len() as u64 + 1) as usize; if s.is_char_boundary(p) { s.insert_str(p, *self.r.pick(&["\u{263a}\u{fe0f}", "\u{2764}\u{fe0f}", "\u{263a}\u{fe0f}\u{263a}\u{fe0f}"])); } }
         // characters without any width: C0 / DEL control characters (dropped by the renderer)
         if self.f.zero && self.r.chance(1, 20) { let p = self.r.below(s.len() as u64 + 1) as usize; if s.is_char_boundary(p) { s.insert(p, *self.r.pick(&['\u{1}', '\u{1b}', '\u{7f}', '\u{8}'])); } }
         if s.is_empty() { s.push('x'); }
